@@ -51,7 +51,7 @@ PROPS = {
                         "the in-memory database's query functions are modelled by Manager.find_item (validated by the correspondence)"],
     },
     "C16": {
-        "coq_deps": ["ManagerFacts", "MgrBatch", "CacheProto", "CacheRegular"],
+        "coq_deps": ["ManagerFacts", "MgrBatch", "CacheProto", "CacheRegular", "CacheMulti"],
         "steps": [
             {"sub": "mgr", "quick": [0], "thorough": [1]},
             {"sub": "proto", "quick": [0], "thorough": [1]},
